@@ -209,7 +209,12 @@ impl Array {
     }
 
     fn val_iter(&self) -> impl Iterator<Item = &Val> {
-        self.arr.iter().chain(self.dict.values())
+        self.arr.iter().chain(
+            self.dict
+                .iter()
+                .sorted_unstable_by_key(|(k, _)| k.to_string())
+                .map(|(_, v)| v),
+        )
     }
 
     fn is_empty(&self) -> bool {
